@@ -123,7 +123,25 @@ def unused_tensors():
             return "an unused tensor received a non-zero gradient"
 
 
-TABLE = {"deterministic_sampler": deterministic_sampler, "weights_and_linearity": weights_and_linearity, "gradients": gradients,
+def backward_reuses_forward_samples():
+    """the sampler runs once per mcquad call: backward evaluates its estimators on the forward samples"""
+    calls = []
+
+    def sampler(logp, x0, pparams, **kw):
+        calls.append(1)
+        xs = x0 + torch.arange(5, dtype=torch.float64).reshape(5, 1) * 0.1 * len(calls)
+        return xs, torch.ones(5, dtype=torch.float64) / 5
+    a = torch.tensor(0.7, dtype=torch.float64, requires_grad=True)
+    y = mcquad(lambda x, a: (a * x ** 2).sum(-1, keepdim=True), lambda x, a: -(a * x ** 2).sum(), torch.zeros(1, dtype=torch.float64),
+               fparams=(a,), pparams=(a,), method=sampler)
+    torch.autograd.grad(y.sum(), a)
+    if len(calls) != 1:
+        return "the sampler was called %d times for one forward and one backward pass" % len(calls)
+    return None
+
+
+TABLE = {"backward_reuses_forward_samples": backward_reuses_forward_samples,
+         "deterministic_sampler": deterministic_sampler, "weights_and_linearity": weights_and_linearity, "gradients": gradients,
          "unused_tensors": unused_tensors, "burn_in_exactly_nburnout": burn_in_exactly_nburnout}
 
 if __name__ == "__main__":
